@@ -301,15 +301,17 @@ def rowOf (t : TupleRec) : Row :=
    isUsersetUser t.user, t.condName⟩
 
 structure SqlShape where
-  /-- `read` / `ReadStartingWithUser`: a user filter without relation also constrains `user_relation = ''`
+  /-- `read`: a user filter `type:id` without relation also constrains `user_relation = ''`
   (false: the column is left unconstrained, as written) -/
   userNoRelPinsEmpty : Bool
+  /-- the same for the `UserFilter` entries of `ReadStartingWithUser` -/
+  rswuUserNoRelPinsEmpty : Bool
   /-- `ReadStartingWithUser`: an empty non-nil `ObjectIDs` adds no `object_id IN (...)` clause -/
   rswuEmptyIdsMeansAll : Bool
 deriving DecidableEq, Repr, Inhabited
 
-def SqlShape.asWritten : SqlShape := ⟨false, true⟩
-def SqlShape.fixed : SqlShape := ⟨true, false⟩
+def SqlShape.asWritten : SqlShape := ⟨false, false, true⟩
+def SqlShape.fixed : SqlShape := ⟨true, true, false⟩
 
 /-- `COALESCE(condition_name, '') IN (...)`, only added when `len(filter.Conditions) > 0` -/
 def sqlCondOk (cs : List String) (r : Row) : Bool := cs.isEmpty || cs.contains r.condName
@@ -362,14 +364,18 @@ def sqlReadUsersetTuples (s : List TupleRec) (f : UsersetFilter) : List TupleRec
 /-- one `targetUsersArg` entry of `sqlite.ReadStartingWithUser` (`ToUserPartsFromObjectRelation`) -/
 def sqlTargetOk (sh : SqlShape) (u : ObjRel) (r : Row) : Bool :=
   r.uTyp = (splitObject u.object).1 && r.uId = (splitObject u.object).2
-  && (if u.relation = "" then (!sh.userNoRelPinsEmpty || r.uRel = "") else r.uRel = u.relation)
+  && (if u.relation = "" then (!sh.rswuUserNoRelPinsEmpty || r.uRel = "") else r.uRel = u.relation)
+
+/-- `if filter.ObjectIDs != nil && filter.ObjectIDs.Size() > 0 { … object_id IN (…) }` -/
+def sqlIdsOk (emptyMeansAll : Bool) (ids : Option (List String)) (r : Row) : Bool :=
+  match ids with
+  | none => true
+  | some l => (emptyMeansAll && l.isEmpty) || l.contains r.objId
 
 def sqlRswuWhere (sh : SqlShape) (f : RswuFilter) (r : Row) : Bool :=
   r.objType = f.objectType && r.relation = f.relation
   && f.userFilter.any (fun u => sqlTargetOk sh u r)
-  && (match f.objectIDs with
-      | none => true
-      | some l => (sh.rswuEmptyIdsMeansAll && l.isEmpty) || l.contains r.objId)
+  && sqlIdsOk sh.rswuEmptyIdsMeansAll f.objectIDs r
   && sqlCondOk f.conditions r
 
 /-- rows matched by `sqlite.ReadStartingWithUser` (returned `ORDER BY object_id`) -/
@@ -416,12 +422,16 @@ def specUsersetPred (f : UsersetFilter) (t : TupleRec) : Bool :=
 allowed user types if any are given, and to the condition names if any are given -/
 def specReadUsersetTuples (s : List TupleRec) (f : UsersetFilter) : List TupleRec := s.filter (specUsersetPred f)
 
+/-- `ObjectIDs`: "the intersection between this filter and what is in the database"; nil = no filter -/
+def specIdsOk (ids : Option (List String)) (t : TupleRec) : Bool :=
+  match ids with
+  | none => true
+  | some l => l.contains t.objId
+
 def specRswuPred (f : RswuFilter) (t : TupleRec) : Bool :=
   t.objType = f.objectType && t.relation = f.relation
   && f.userFilter.any (fun u => targetUser u = t.user)
-  && (match f.objectIDs with
-      | none => true
-      | some l => l.contains t.objId)        -- "the intersection between this filter and what is in the database"
+  && specIdsOk f.objectIDs t
   && condOk f.conditions t
 
 /-- `ReadStartingWithUser`: reverse read; each matching tuple once; as a multiset (the order is "sorted by
